@@ -74,14 +74,26 @@ structure Acc where
   tasks : List Nat := []
   preOk : Bool := true
   ended : Bool := false
+  labels : List Label := []          -- everything applied so far, internal steps included (newest first)
 
 def pcName (p : Pc) : String := (reprStr p).replace "Lm.Thpool.Pc." ""
 
-def applyLabels (s : State) (preOk : Bool) : List Label → Except String (State × Bool)
-  | [] => .ok (s, preOk)
+/-- `runTaus`, also counting the internal steps taken -/
+def runTausN (s : State) (t : Tid) : Nat → State × Nat
+  | 0 => (s, 0)
+  | fuel + 1 => if isTauPc s t then
+      match step s ⟨t, .tau⟩ with
+      | some s' => let (s'', n) := runTausN s' t fuel; (s'', n + 1)
+      | none => (s, 0)
+    else (s, 0)
+
+def applyLabels (s : State) (preOk : Bool) (acc : List Label) : List Label → Except String (State × Bool × List Label)
+  | [] => .ok (s, preOk, acc)
   | l :: ls =>
     match step s l with
-    | some s' => applyLabels (runTaus s' l.tid 8) (preOk && pre s l) ls
+    | some s' =>
+      let (s'', n) := runTausN s' l.tid 8
+      applyLabels s'' (preOk && pre s l) (List.replicate n ⟨l.tid, .tau⟩ ++ l :: acc) ls
     | none => .error s!"T{l.tid} is at {pcName (s.pc l.tid)}, lock owner {s.lockOwner}, waiters {s.waiters}, queue {s.tasks}"
 
 def feed (a : Acc) (line : String) : Acc :=
@@ -108,8 +120,8 @@ def feed (a : Acc) (line : String) : Acc :=
       let tasks := match ls with
         | [⟨_, .addCall k _⟩] => if a.tasks.contains k then a.tasks else k :: a.tasks
         | _ => a.tasks
-      match applyLabels s a.preOk ls with
-      | .ok (s', p) => { a with st := some s', nev := a.nev + 1, tids := tids, tasks := tasks, preOk := p }
+      match applyLabels s a.preOk a.labels ls with
+      | .ok (s', p, lbs) => { a with st := some s', nev := a.nev + 1, tids := tids, tasks := tasks, preOk := p, labels := lbs }
       | .error why => { a with verdict := some s!"rejected at {a.nev}: `{line}` is not enabled: {why}" }
 
 def okS (b : Bool) : String := if b then "ok" else "FAIL"
@@ -138,7 +150,18 @@ def report (a : Acc) : List String :=
      s!"monitor no_touch_after_free {okS noTouch}",
      s!"monitor quiescent {okS (!a.ended || quiescent s a.tids)}"]
 
-def run : IO Unit := do
+def fmtAct : Act → String
+  | .signal none => ".signal none"
+  | .signal (some w) => s!".signal (some {w})"
+  | .qfree ks => s!".qfree {ks}"
+  | .addRet c => if c < 0 then s!".addRet ({c})" else s!".addRet {c}"
+  | a => "." ++ ((reprStr a).replace "Lm.Thpool.Act." "")
+
+/-- the accepted label sequence as a Lean term (used to write the `example`s of Lm.Props.C06) -/
+def dump (a : Acc) : String :=
+  "[" ++ ", ".intercalate (a.labels.reverse.map fun l => s!"⟨{l.tid}, {fmtAct l.act}⟩") ++ "]"
+
+def run (dumpLabels : Bool := false) : IO Unit := do
   let stdin ← IO.getStdin
   let stdout ← IO.getStdout
   let lines ← Driver.readLines stdin #[]
@@ -148,6 +171,7 @@ def run : IO Unit := do
     if line.startsWith "# " then
       if open_ then
         for o in report a do stdout.putStrLn o
+        if dumpLabels then stdout.putStrLn (dump a)
       a := {}
       open_ := true
       stdout.putStrLn s!"## {(line.drop 2).toString}"
@@ -155,6 +179,7 @@ def run : IO Unit := do
       a := feed a line
   if open_ then
     for o in report a do stdout.putStrLn o
+    if dumpLabels then stdout.putStrLn (dump a)
   stdout.flush
 
 end Driver.Thpool
